@@ -9,6 +9,7 @@ import (
 	"context"
 	"fmt"
 	"reflect"
+	"strings"
 	"time"
 
 	"github.com/Comcast/sheens/core"
@@ -339,7 +340,40 @@ func stepComponent(g *G, n int, opts map[string]string) *Out {
 		sample := &stepCase{Spec: as, State: st, Pending: pending, NilCtl: nilCtl,
 			Go: map[string]interface{}{"outcome": r1.Outcome, "err": r1.Err, "stride": r1.Stride,
 				"intact": r1.Intact && r2.Intact, "shared": r1.Shared || r2.Shared, "repeat_equal": r1.key() == r2.key()}}
-		o.add(term, canon(as)+canon(st)+canon(pending), moved || r1.Err != "GNone", sample)
+		nontrivial := moved || r1.Err != "GNone"
+		hasPerm := false
+		for k := range st.Bs {
+			if strings.HasSuffix(k, "!") {
+				hasPerm = true
+			}
+		}
+		failed := nd != nil && nd.Action != nil && (nd.Action.P.Term == "throw" || nd.Action.P.Term == "nonobject" ||
+			nd.Action.P.Term == "emitbad" || nd.Action.P.Term == "loop")
+		emits := false
+		if nd != nil && nd.Action != nil {
+			for _, op := range nd.Action.P.Ops {
+				if op.Kind == "emit" || op.Kind == "emitb" {
+					emits = true
+				}
+			}
+		}
+		switch opts["mode"] {
+		case "c18":
+			nontrivial = hasPerm && moved && nd != nil && (nd.Action != nil || anyGuard(nd))
+		case "c08":
+			nontrivial = emits
+		case "c07":
+			nontrivial = failed || r1.Err != "GNone" || st.Bs == nil
+		case "c06":
+			nontrivial = failed || r1.Err != "GNone" || (moved && nd != nil && nd.Action != nil)
+		}
+		if failed && emits {
+			o.count("emit-then-fail")
+		}
+		if hasPerm {
+			o.count("has-permanent")
+		}
+		o.add(term, canon(as)+canon(st)+canon(pending), nontrivial, sample)
 	}
 	return o
 }
@@ -633,9 +667,38 @@ func walkComponent(g *G, n int, opts map[string]string) *Out {
 		sample := &walkCase{Spec: as, State: st, Msgs: msgs, Limit: limit, Bp: bp,
 			Go: map[string]interface{}{"outcome": r1.Outcome, "walked": r1.W, "intact": r1.Intact && r2.Intact,
 				"shared": r1.Shared || r2.Shared, "repeat_equal": r1.key() == r2.key(), "split_agree": splitAgree, "splits": splitTried}}
-		o.add(term, canon(as)+canon(st)+canon(msgs)+fmt.Sprint(limit)+canon(bp), nstrides >= 2, sample)
+		nontrivial := nstrides >= 2
+		emitted, failedAny := false, false
+		if r1.W != nil {
+			for _, sd := range r1.W.Strides {
+				if len(sd.Emitted) > 0 {
+					emitted = true
+				}
+				if sd.To != nil {
+					if _, have := sd.To.Bs["error"]; have {
+						failedAny = true
+					}
+				}
+			}
+		}
+		switch opts["mode"] {
+		case "c08":
+			nontrivial = emitted
+		case "c07", "c06":
+			nontrivial = failedAny
+		}
+		o.add(term, canon(as)+canon(st)+canon(msgs)+fmt.Sprint(limit)+canon(bp), nontrivial, sample)
 	}
 	return o
+}
+
+func anyGuard(nd *ANode) bool {
+	for _, b := range nd.Branches {
+		if b.Guard != nil {
+			return true
+		}
+	}
+	return false
 }
 
 func nodesAsMap(as *ASpec) map[string]interface{} {
